@@ -102,7 +102,7 @@ def history_variants(p):
 
 def cases(tier, seed):
     out = []
-    base = shapes.space_depth2(tier)
+    base = shapes.space_depth2(tier) + shapes.twins(tier)
     if tier == "quick":
         for p in base:
             for i, st in enumerate((S_DEFAULT, S_BUILDER)):
@@ -145,7 +145,7 @@ def cases(tier, seed):
     from . import C06, C07
     for c in C06.cases(tier, seed):
         out.append({"id": "default:" + c["id"], "doc": c["doc"], "target": None, "settings": c["settings"], "family": "default",
-                    "shape": "default:" + c["kind"], "ctx": c["pos"], "default_valid": c["valid"]})
+                    "shape": "default:" + c["kind"], "ctx": c["pos"], "default_valid": c["valid"] and c.get("src") != "universe+zz"})   # a default with undeclared members may be declined
     for c in C07.cases("quick", seed):
         if c["n"] == 1:
             out.append({"id": "graph:" + c["key"], "doc": c["doc"], "target": "D0", "settings": S_BUILDER, "family": "cycle", "shape": "graph", "ctx": "n1",
